@@ -204,7 +204,15 @@ static void first_problem (const char *dump, char *out, size_t n) {
   if (!p) { snprintf (out, n, "?"); return; }
   /* the key names the kind of problem: the text up to the first number */
   size_t k = 0;
-  for (p += 3; *p && *p != '\n' && !(*p >= '0' && *p <= '9') && k + 1 < n; p++) out[k++] = *p == ' ' ? '-' : *p;
+  for (p += 3; *p && *p != '\n' && k + 1 < n; p++) {
+    if (*p >= '0' && *p <= '9') break;
+    if (p[-1] == ' ') {           /* a word made of hex digits only is an address */
+      const char *q = p; int hex = 0;
+      while ((*q >= '0' && *q <= '9') || (*q >= 'a' && *q <= 'f')) { q++; hex++; }
+      if (hex >= 3 && (*q == ' ' || *q == ':' || *q == '\n' || !*q || *q == '-')) break;
+    }
+    out[k++] = *p == ' ' ? '-' : *p;
+  }
   while (k && out[k - 1] == '-') k--;
   out[k] = 0;
 }
